@@ -160,6 +160,9 @@ format_t::element_t * format_t::parse_elements(const string& fmt,
 
     if (*p == '\\') {
       p++;
+      // nothing follows the backslash: the loop must not step past the end
+      if (! *p)
+        throw_(format_error, _("Backslash at end of format string"));
       current->type = element_t::STRING;
       switch (*p) {
       case 'b':  current->data = string("\b");  break;
